@@ -7,7 +7,7 @@ Decided (structural, necessary conditions):
       associate ("normalised associate regardless of argument order").
 Not decided: a = (a/b)*b + a%b, Bezout identity values, unit tables.
 """
-import e2_float, e3_gcd
+import e2_float, e3_gcd, e15_divround
 
 LEVEL = 'other'
 EXPLANATION = ('Static analysis of the type-checked MIR of /repo: (E2) float-taint dataflow with call-graph '
@@ -15,7 +15,8 @@ EXPLANATION = ('Static analysis of the type-checked MIR of /repo: (E2) float-tai
                'operation may return, branch on or store a float-derived value; (E3) path-sensitive symbolic '
                'summaries of every return path of EucRing::{gcd,gcdx,lcm} (defaults + overrides) - the returned '
                'gcd must come from an accepted normalising producer, and a unit-rescaled gcd must carry equally '
-               'rescaled Bezout coefficients. The arithmetic identities themselves are not decided.')
+               'rescaled Bezout coefficients. (E15) every Neg/Add/Sub of the generic nearest-integer quotient is proved to stay inside the range of an 8/32/64/128-bit '
+               'two\'s-complement type on every path (linear model of truncating division, Fourier-Motzkin). The arithmetic identities themselves are not decided.')
 TRUSTED = ['rustc MIR (dev profile, mir-opt-level=0) of the current /repo tree',
            'class-hierarchy over workspace impls over-approximates unresolved trait calls',
            'num_integer gcd/extended_gcd/lcm return non-negative (normalised) values',
@@ -44,4 +45,6 @@ def run(ctx, rep):
     rep.rule('E3', e3_gcd.__doc__.strip().split('\n')[0])
     e2_float.apply(facts, rep, scope, 'C15', floor_scope=60)
     e3_gcd.run(facts, rep)
+    rep.rule('E15', e15_divround.__doc__.strip().split('\n')[0])
+    e15_divround.run(facts, rep)
     rep.callsites += sum(len(facts.bodies[k].calls()) for k in rep.functions if k in facts.bodies)
